@@ -91,6 +91,39 @@ func Counting(p *core.Prog, r *core.Report) {
 		})
 		return out
 	}
+	// ---- oneOf: the errors kept from failing alternatives are void when exactly one alternative holds -------
+	// (they are merged into the final result by the caller: an alternative that fails *after* the successful one
+	// would otherwise turn a valid verdict into an invalid one, depending on the order of the alternatives)
+	if f := p.Func("(*schemaPropsValidator).validateOneOf"); f != nil && len(f.Params) >= 4 {
+		keep := f.Params[len(f.Params)-1]
+		phi := counterOf(f, "validated")
+		voided := false
+		if phi != nil {
+			core.EachInstr(f, func(i ssa.Instruction) {
+				c, ok := i.(*ssa.Call)
+				if !ok {
+					return
+				}
+				g := core.StaticCallee(c)
+				if g == nil || g.Name() != "cleared" || len(c.Call.Args) == 0 || c.Call.Args[0] != ssa.Value(keep) {
+					return
+				}
+				// after the loop, on the "exactly one" arm
+				for _, cd := range core.CondsAt(c.Block()) {
+					if bo, ok := cd.Value.(*ssa.BinOp); ok && bo.Op == token.EQL && cd.Sense {
+						if k, isK := core.ConstInt(bo.Y); isK && k == 1 && (bo.X == ssa.Value(phi) || dependsOn(bo.X, phi, 0)) {
+							voided = true
+						}
+					}
+				}
+			})
+		}
+		if voided {
+			r.OK(rule, "oneOf:kept-errors", p.Pos(f.Pos()), "the errors kept from failing alternatives are cleared on the arm where exactly one alternative holds")
+		} else {
+			r.Bad(rule, "oneOf:kept-errors", p.Pos(f.Pos()), "the 'important' errors kept from failing alternatives survive when exactly one alternative holds (they are only cleared at the moment an alternative succeeds; an alternative failing after it adds them again and the caller merges them): {\"oneOf\":[{\"required\":[\"headers\"]},{\"additionalProperties\":false}]} rejects {\"headers\":{\"h\":{\"$ref\":\"#/x\"}}} although exactly one alternative holds, and accepts it with the alternatives swapped")
+		}
+	}
 	// ---- oneOf -------------------------------------------------------------------------------
 	if f := p.Func("(*schemaPropsValidator).validateOneOf"); f != nil {
 		phi := counterOf(f, "validated")
